@@ -1,6 +1,8 @@
+pub mod alloc;
 pub mod anycrypto;
 pub mod driver;
 pub mod store;
 pub mod util;
+pub mod wire;
 pub mod world;
 pub mod engines;
